@@ -218,6 +218,10 @@ const rootInputSchema = `input:
           default: '""'
           type:
             type_id: string
+        pat:
+          required: false
+          type:
+            type_id: pattern
     Nested:
       id: Nested
       properties:
@@ -255,6 +259,10 @@ const itemInputSchema = `input:
           default: '""'
           type:
             type_id: string
+        pat:
+          required: false
+          type:
+            type_id: pattern
 `
 
 // ExprText renders an expression in the engine's expression language.
